@@ -385,3 +385,21 @@ func unspill(ret *ssa.Return, v ssa.Value) ssa.Value {
 	}
 	return v
 }
+
+// RunsEveryBlock: every success return of the ABCI entry point passes the call of `step`.
+func (c *Ctx) RunsEveryBlock(entry, step, key string) {
+	f := c.Fn(entry)
+	if f == nil {
+		return
+	}
+	st := c.one(f, false, step)
+	if st == nil {
+		return
+	}
+	n := 0
+	for _, r := range successReturns(f) {
+		n++
+		c.Check(mustPassBefore(r, st), fk(f, key), r, "every success return of "+shortName(q(entry))+" passes "+shortName(q(step)))
+	}
+	c.Check(n > 0, fk(f, key, "census"), f, "the entry point has a success return")
+}
